@@ -10,7 +10,7 @@ Open Scope Z_scope.
 
    op 1  [1 key ticket maccol ks ikey iticket istate]  decryptTicket(key, ticket); (ikey, iticket, istate) =
          the key / ticket / state of the encryptTicket call this ticket was derived from
-         -> [1 vers suite master [cert..]] | [0]
+         -> [1 vers suite master [cert..] VB buf] | [0 VB buf]     (buf = the ticket buffer after the call)
    op 2  [2 key iv state ks maccol]                    encryptTicket -> VB ticket
    op 3  [3 consts table policy maccol ks]             checkForResumption
          -> VErr 70 (no mutual version: the handshake fails before resumption is considered) | [0 connVers]
@@ -54,9 +54,10 @@ Definition dec_policy (v : val) : option policy :=
 Definition run_C44 (v : val) : val :=
   match v with
   | VL [VZ 1; VB key; VB t; VB col; VB ks; VB _; VB _; _] =>
+    let buf := VB (ticket_buf_after (cmac col) (cctr ks) key t) in
     match decrypt_ticket (cmac col) (cctr ks) key t with
-    | Some s => VL (VZ 1 :: enc_sess s)
-    | None => VL [VZ 0]
+    | Some s => VL (VZ 1 :: enc_sess s ++ [buf])
+    | None => VL [VZ 0; buf]
     end
   | VL [VZ 2; VB key; VB iv; st; VB ks; VB col] =>
     match dec_sess st with
@@ -114,10 +115,12 @@ Definition prop_C44 (i o : val) : bool :=
   match i with
   | VL [VZ 1; VB key; VB t; VB col; VB ks; VB ikey; VB it; ist] =>
     let own := bytes_eqb key ikey && bytes_eqb t it in
+    (* nothing is decrypted (the buffer is untouched) unless the MAC over all preceding bytes verified *)
+    let buf_ok := fun buf => tag_ok t col || bytes_eqb buf t in
     match o, dec_sess ist with
-    | VL [VZ 0], Some _ => negb own                      (* own unmodified tickets are honoured *)
-    | VL [VZ 1; a; b; c; d], Some s0 =>                  (* accepted => byte-identical to the issued one, same key *)
-      own && val_eqb (VL [a; b; c; d]) (VL (enc_sess s0))
+    | VL [VZ 0; VB buf], Some _ => negb own && buf_ok buf       (* own unmodified tickets are honoured *)
+    | VL [VZ 1; a; b; c; d; VB buf], Some s0 =>                 (* accepted => byte-identical to the issued one, same key *)
+      own && val_eqb (VL [a; b; c; d]) (VL (enc_sess s0)) && buf_ok buf
     | _, _ => false
     end
   | VL [VZ 2; VB key; VB iv; st; VB ks; VB col] =>
@@ -140,6 +143,37 @@ Definition prop_C44 (i o : val) : bool :=
       | VL [VZ (-1); VZ 70] => true
       | _ => false
       end
+    | _, _, _ => false
+    end
+  | _ => false
+  end.
+
+(* Well-formed inputs (what the generator produces).  For op 1 this contains the symbolic-crypto reading
+   of the HMAC column: the supplied HMAC value equals the presented tag only for the issued ticket under
+   its own key (unforgeability / collision freedom of HMAC-SHA256 for the generated cases), and for the
+   issued ticket it does and the key stream decrypts it to the issued state. *)
+Definition wf_C44 (i : val) : bool :=
+  match i with
+  | VL [VZ 1; VB key; VB t; VB col; VB ks; VB ikey; VB it; ist] =>
+    match dec_sess ist with
+    | Some s0 =>
+      let own := bytes_eqb key ikey && bytes_eqb t it in
+      implb (tag_ok t col) own &&
+      implb own (tag_ok t col &&
+                 match unmarshal (ticket_plain t ks) with
+                 | Some s => val_eqb (VL (enc_sess s)) (VL (enc_sess s0))
+                 | None => false
+                 end)
+    | None => false
+    end
+  | VL [VZ 2; VB key; VB iv; st; VB ks; VB col] =>
+    match dec_sess st with
+    | Some s => wf_sess s && (blen iv =? 16) && (blen col =? 32) && (blen (marshal s) <=? blen ks)
+    | None => false
+    end
+  | VL [VZ 3; k; VL tb; p; VB col; VB ks] =>
+    match dec_consts k, all_some (map dec_pair tb), dec_policy p with
+    | Some _, Some _, Some _ => true
     | _, _, _ => false
     end
   | _ => false
